@@ -985,6 +985,12 @@ def rule_R1(ctx, world, tracer, reach):
                     in_body = any(c is x for s in a.body for x in ast.walk(s))
                     if (t == "%s is None" % p and in_body) or (t in ("%s is not None" % p, "%s != None" % p) and not in_body):
                         ok = True
+                elif isinstance(a, ast.IfExp):
+                    t = u(a.test)
+                    in_body = any(c is x for x in ast.walk(a.body))
+                    in_else = any(c is x for x in ast.walk(a.orelse))
+                    if (t in ("%s is None" % p, "%s == None" % p) and in_body) or (t in ("%s is not None" % p, "%s != None" % p) and in_else):
+                        ok = True
             ctx.check(ok, "R1", inst, sf.where(c), "an unseeded generator is created on a path where a seed was given", construct=sf.qualname, stmt=u(c))
     rets = [n for n in world.own(sf) if isinstance(n, ast.Return)]
     okret = bool(rets)
